@@ -39,8 +39,33 @@ def targeted():
     for op in ('&&', '||'):
         for args in itertools.product(['0', '1', 'x', '(do (print "c") 0)', '""'], repeat=3):
             out.append('(%s %s)' % (op, ' '.join(args)))
+    # an operator nested in itself: + chooses sum / concatenation / append per call, so (+ (+ x 1) "a") is not (+ x 1 "a")
+    for inner in ['(+ x 1)', '(+ x x)', '(+ 1 x 2)', '(+ x "b")', "(+ x '(0))", '(+ x 0)', '(+ 0 x)']:
+        for other in ['"a"', "'(7 8)", '(list x)', '2', 'x', '0', '0.0']:
+            out.append('(+ %s %s)' % (inner, other))
+            out.append('(+ %s %s)' % (other, inner))
+            out.append('(+ %s %s %s)' % (other, inner, other))
+    for inner in ['(* x 2)', '(* 2.5 x)', '(* x x)']:
+        for other in ['3', '0.1', 'x', '0', '1']:
+            out.append('(* %s %s)' % (inner, other))
+            out.append('(* %s %s)' % (other, inner))
+    # literal identities next to lists and strings: (+ xs 0) appends 0, (+ "s" 0) is "s0"
+    for xs in ["'(1 2)", "'()", '"s"', '(list x)', 'x']:
+        for z in ['0', '0.0', '1', '""', "'()"]:
+            out.append('(+ %s %s)' % (xs, z))
+            out.append('(+ %s %s)' % (z, xs))
+            out.append('(* %s %s)' % (xs, z) if xs == 'x' else '(+ %s %s %s)' % (xs, z, xs))
+    # branches that are equal as Python values but not as WAL values (1, 1.0, #t; 0, 0.0, #f; inside lists too), under a
+    # condition that is true (x) or false (z) at run time
+    same = [('1', '1.0'), ('1', '#t'), ('1.0', '#t'), ('0', '0.0'), ('0', '#f'), ('0.0', '#f'), ("'(1)", "'(1.0)"), ("'(0 1)", "'(#f #t)"),
+            ('(* x 2)', '(* x 2.0)'), ('2', '2'), ('"a"', '"a"')]
+    for c in ['x', 'z', '(! x)', 'top.a']:
+        for a, b in same:
+            out.append('(if %s %s %s)' % (c, a, b))
+            out.append('(if %s %s %s)' % (c, b, a))
+            out.append('(print (if %s %s %s))' % (c, a, b))
     # a condition that is not a literal, with literal / variable branches: (if c #t #f) is not c
-    for c in ['x', 'top.a', '(print "p")', '(set [x 1])', '(step)', "'()", "'(1)", '(+ x 1)', '(= x 0)']:
+    for c in ['x', 'z', 'top.a', '(print "p")', '(set [x 1])', '(step)', "'()", "'(1)", '(+ x 1)', '(= x 0)']:
         for a, b in itertools.product(['#t', '#f', '0', '1', 'x'], repeat=2):
             out.append('(if %s %s %s)' % (c, a, b))
     return out
@@ -100,14 +125,18 @@ def run(tier, seed, replay=None):
     cases = []
     for t in texts:
         for flags in ('111', '101'):
-            cases.append({'id': len(cases), 'cmds': setup + [['evalstr_all', flags, '(define x 5)'], ['evalstr_all', flags, t],
+            cases.append({'id': len(cases), 'cmds': setup + [['evalstr_all', flags, '(do (define x 5) (define z 0))'], ['evalstr_all', flags, t],
                                                              ['evalstr_all', flags, PROBE]], 'text': t, 'flags': flags})
-        cases.append({'id': len(cases), 'cmds': setup + [['evalstr', '111', '(define x 5)'], ['evalstr', '111', t], ['evalstr', '111', PROBE]],
+        cases.append({'id': len(cases), 'cmds': setup + [['evalstr', '111', '(do (define x 5) (define z 0))'], ['evalstr', '111', t], ['evalstr', '111', PROBE]],
                       'text': t, 'flags': 'model'})
     results = lib.run_sessions(cases)
     by_text = {}
     for case, impl, mout, cmp in results:
         rep.evaluations += 1
+        r_ = lib.recheck_crash(rep, case, impl, mout, cmp)
+        if r_ is None:
+            continue
+        case, impl, mout, cmp = r_
         if case['flags'] == 'model':
             if cmp is None:
                 pass
